@@ -777,6 +777,14 @@ def check_volume_2d(ctx: Ctx):
     sv = view(m, setter)
     par = [p for p in setter.params if p != "self"][0]
     st = [s_ for s_, t in sv.assigns_to_attr("self") if U(t) == "self.radius" and isinstance(s_, ast.Assign)]
+    rel = [s_ for s_, t in sv.assigns_to_attr("self") if U(t) == "self.radius" and isinstance(s_, ast.AugAssign) and isinstance(s_.op, (ast.Mult, ast.Div))]
+    if rel and not st:
+        # a relative update (radius *= f(volume / self.volume)) divides by the current volume: a droplet of radius 0 — a valid
+        # state, e.g. the placeholder a tracker creates — gets 0·inf = NaN instead of the radius of the requested volume
+        ctx.violate("FORMULA", setter.qualname, (setter, rel[0]),
+                    f"`{U(rel[0])}` rescales the current radius instead of computing it from the requested volume: for a droplet of radius 0 the factor is infinite and the radius becomes NaN, "
+                    "so the reported volume is not the one that was set")
+        return
     if len(st) != 1:
         ctx.undecided("FORMULA", setter.qualname, setter, "no single store to self.radius")
         return
